@@ -32,6 +32,7 @@ class Seam:
         self.bufsize = 8192
         self.crash_at = []  # pending crash points: [role, 'before'|'after', k]
         self.fired = []
+        self.fail_read = None  # (role, file name): the next read-open of that file by that role fails once
         self.on_event = None  # callback(rec) for property-level observation
         self.installed = False
         self.events = []
@@ -44,6 +45,7 @@ class Seam:
         self.bufsize = bufsize
         self.crash_at = []
         self.fired = []
+        self.fail_read = None
         self.on_event = None
         self.events = []
 
@@ -52,6 +54,7 @@ class Seam:
         self.sim = None
         self.on_event = None
         self.crash_at = []
+        self.fail_read = None
 
     # ---- helpers
     def inscope(self, p):
@@ -195,6 +198,16 @@ class Seam:
         _pyio.os = px
 
         def sim_open(file, mode="r", buffering=-1, *a, **kw):
+            fr = seam.fail_read
+            if fr is not None and not isinstance(file, int) and not any(c in mode for c in "wax+") and seam.inscope(file):
+                p = PROC.get()
+                if p is not None and p.role == fr[0] and os.path.basename(os.fspath(file)) == fr[1]:
+                    # injected system-call failure: one read-open of this file fails (EMFILE), once
+                    seam.fail_read = None
+                    seam.sim.count("read_error")
+                    seam.sim.log.append(("read_error", p.role, fr[1]))
+                    import errno
+                    raise OSError(errno.EMFILE, "Too many open files (injected)", os.fspath(file))
             if isinstance(file, int) or not seam.inscope(file) or not any(c in mode for c in "wax+"):
                 return _REAL["io_open"](file, mode, buffering, *a, **kw)
             p = PROC.get()
